@@ -10,5 +10,6 @@ CONSTANTS
   Es = 8
   MaxB = 32
   MaxPa = 0
+  TRem = {}
 INVARIANTS Inv Refines LookupOK ChkOK CapacityOK
 CHECK_DEADLOCK FALSE
